@@ -175,6 +175,15 @@ func (f *Frame) callCommon(st *execState, c *ssa.CallCommon, rtype types.Type, p
 			})
 		}
 	}
+	// call through a captured function variable (closures capture by reference:
+	// the callee is a load from the free variable): "param.<Closure>.<variable>"
+	if fvn := freeVarOf(c.Value); fvn != "" {
+		if con := e.contractFor("param." + f.fn.Name() + "." + fvn); con != nil {
+			return f.packedCall(st, args, true, func() Val {
+				return f.modularCall(st, nil, con.Target, con, c.Signature(), args, rtype, pos, hint, false)
+			})
+		}
+	}
 	// call through a function value: field contract?
 	if con := f.fieldContractFor(c.Value); con != nil {
 		return f.packedCall(st, args, true, func() Val {
@@ -182,6 +191,74 @@ func (f *Frame) callCommon(st *execState, c *ssa.CallCommon, rtype types.Type, p
 		})
 	}
 	return f.packedCall(st, args, true, func() Val { return f.havocCall(st, "func value "+c.Value.Name(), args, rtype, hint, pos) })
+}
+
+// freeVarOf names the captured variable a callee value is loaded from.
+func freeVarOf(v ssa.Value) string {
+	switch x := v.(type) {
+	case *ssa.FreeVar:
+		return x.Name()
+	case *ssa.UnOp:
+		if fv, ok := x.X.(*ssa.FreeVar); ok && x.Op == token.MUL {
+			return fv.Name()
+		}
+	}
+	return ""
+}
+
+// contractOfCall resolves, without executing anything, the contract a call
+// instruction would be treated with (nil: inlined or havoc'd).
+func (f *Frame) contractOfCall(c *ssa.CallCommon) (*Contract, *ssa.Function) {
+	e := f.e
+	if c.IsInvoke() {
+		return e.contractFor("(" + shortName(types.TypeString(c.Value.Type(), nil)) + ")." + c.Method.Name()), nil
+	}
+	switch callee := c.Value.(type) {
+	case *ssa.Function:
+		return e.contractFor(fnName(callee)), callee
+	case *ssa.MakeClosure:
+		fn := callee.Fn.(*ssa.Function)
+		return e.contractFor(fnName(fn)), fn
+	case *ssa.Parameter:
+		return e.contractFor("param." + f.fn.Name() + "." + callee.Name()), nil
+	}
+	if fvn := freeVarOf(c.Value); fvn != "" {
+		if con := e.contractFor("param." + f.fn.Name() + "." + fvn); con != nil {
+			return con, nil
+		}
+	}
+	return f.fieldContractFor(c.Value), nil
+}
+
+// movesTicks: may executing these blocks change the ghost progress counter?
+// (a callee contract with "sets TICKS", also inside callees that are inlined)
+func (f *Frame) movesTicks(blocks []*ssa.BasicBlock, depth int) bool {
+	for _, b := range blocks {
+		for _, ins := range b.Instrs {
+			call, ok := ins.(*ssa.Call)
+			if !ok {
+				continue
+			}
+			con, fn := f.contractOfCall(&call.Call)
+			if con != nil {
+				for _, sc := range con.Sets {
+					if sc.Ghost == "ticks" {
+						return true
+					}
+				}
+				if !con.Inline {
+					continue
+				}
+			}
+			if fn != nil && len(fn.Blocks) > 0 && depth < 4 {
+				g := &Frame{e: f.e, fn: fn}
+				if g.movesTicks(fn.Blocks, depth+1) {
+					return true
+				}
+			}
+		}
+	}
+	return false
 }
 
 // fieldContractFor: a call through a function-typed struct field T.f uses the
